@@ -5,6 +5,8 @@ import math
 
 ID = "C14"
 CRATE = "c14"
+# sibling sources whose edits enlarge the quick correspondence (fingerprints in source_pins.json)
+SOURCES = ["rlib/rand/src/lib.rs"]
 COQ_DIR = "C14"
 COQ_DEPS = []
 PROFILES = ["debug", "release"]       # wrapping vs checked arithmetic matters here
